@@ -406,7 +406,15 @@ def hist_check(ctx, rec, out, plan):
             fresh_v.setdefault(arg, []).append([float(p[2]), float(p[4]), float(p[6])])
     ncmp = 0
     probe = site_real(rec["probe"], 0)
+    failed = []
+
+    def report(key, text):
+        failed.append(key)
+        ctx.violation(key, text, rec)
+
     for n, st in enumerate(steps):
+        if failed:
+            break       # a corrupted object stays corrupted: only the FIRST failing call of a history names the key
         c = st["call"]
         name = call_name(c)
         hist = " ; ".join("X%d.%s" % (s["call"]["x"], call_name(s["call"])) for s in steps[:n + 1])
@@ -428,10 +436,10 @@ def hist_check(ctx, rec, out, plan):
                 bad = "getDipole"
             ncmp += 1
             if bad:
-                ctx.violation("history:%s:%s:%s-object:r%d" % (name, bad, who, exp["r"]),
+                report("history:%s:%s:%s-object:r%d" % (name, bad, who, exp["r"]),
                               "after the history [%s] object X%d (%s) has pos %s rank %d Q %s getDipole %s; the abstract state is "
                               "pos %s rank %d Q %s" % (hist, x, "PolarSite" if exp["k"] else "StaticSite", got[0:3], int(got[3]),
-                                                       got[4:13], got[13:16], exp["p"], exp["r"], exp["Q"]), rec)
+                                                       got[4:13], got[13:16], exp["p"], exp["r"], exp["Q"]))
         # (b) energies of the long-lived objects = energies of fresh sites in the abstract state
         names = ("E(X1,X2)", "E(X2,X1)", "E(X1,P)", "E(P,X1)", "E(X2,P)", "E(P,X2)")
         pairs = ((ab[1], ab[2]), (ab[2], ab[1]), (ab[1], probe), (probe, ab[1]), (ab[2], probe), (probe, ab[2]))
@@ -444,10 +452,10 @@ def hist_check(ctx, rec, out, plan):
             mag = 200.0 * sum(R ** -m for m in range(1, 6)) * max(1.0, _norm(S)) * max(1.0, _norm(T))
             ncmp += 1
             if not abs(got - fr) <= REL * mag:
-                ctx.violation("history:%s:energy:%s" % (name, names[k]),
+                report("history:%s:energy:%s" % (name, names[k]),
                               "after the history [%s] %s of the long-lived objects is %r, of fresh sites in the abstract state %r "
                               "(X1: pos %s rank %d Q %s; X2: pos %s rank %d Q %s)" % (
-                                  hist, names[k], got, fr, ab[1]["p"], ab[1]["r"], ab[1]["Q"], ab[2]["p"], ab[2]["r"], ab[2]["Q"]), rec)
+                                  hist, names[k], got, fr, ab[1]["p"], ab[1]["r"], ab[1]["Q"], ab[2]["p"], ab[2]["r"], ab[2]["Q"]))
         # (c) accumulators = sum of the listed contributions, each evaluated on a fresh pair
         for x, key in ((1, "s1"), (2, "s2")):
             if not ab[x]["k"]:
@@ -459,10 +467,10 @@ def hist_check(ctx, rec, out, plan):
                 got = hobs[n][x][off:off + 3]
                 ncmp += 1
                 if any(abs(got[k] - exp[k]) > 1e-11 * mag for k in range(3)):
-                    ctx.violation("history:%s:accumulator:%s:%d-contributions" % (name, "V" if acc == "V" else "V_noE", len(cons)),
+                    report("history:%s:accumulator:%s:%d-contributions" % (name, "V" if acc == "V" else "V_noE", len(cons)),
                                   "after the history [%s] %s of X%d is %s; the %d contribution(s) since the last Reset, each "
                                   "evaluated on a fresh source/target pair, sum to %s" % (
-                                      hist, "V()" if acc == "V" else "V_noE()", x, got, len(cons), exp), rec)
+                                      hist, "V()" if acc == "V" else "V_noE()", x, got, len(cons), exp))
     return ncmp
 
 
@@ -488,8 +496,8 @@ def replay_hist(ctx, exe, recs):
     ctx.extra["histories_replayed"] = ctx.extra.get("histories_replayed", 0) + len(recs)
 
 
-def _tlc(ctx, module, what, emit=True, timeout=1500, env=None):
-    res = vlib.tlc("multipole", module, cfg=module + ".cfg", workers=WORKERS, timeout=timeout, heap="4g", env=env)
+def _tlc(ctx, module, what, emit=True, timeout=1500, env=None, **kw):
+    res = vlib.tlc("multipole", module, cfg=module + ".cfg", workers=WORKERS, timeout=timeout, heap="4g", env=env, **kw)
     vlib.tlc_must_hold(res, what)
     ctx.add_tlc(module + ("" if not env else "[" + ",".join("%s=%s" % kv for kv in sorted(env.items())) + "]"), res)
     if emit and 2 * len(res.records) != res.distinct:
@@ -550,6 +558,12 @@ def run(ctx):
     ctx.sample({"history": [s["call"] for s in hrecs[len(hrecs) // 2]["steps"]],
                 "abstract_state_after_last_call": hrecs[len(hrecs) // 2]["steps"][-1]["s2"]})
     step = 2000
+    for k in range(0, len(hrecs), step):
+        replay_hist(ctx, exe, hrecs[k:k + step])
+    del hrecs
+    # deeper random histories (5 calls): TLC -simulate; every successor of the 4th call is exported
+    hrecs = _tlc(ctx, "MCHistDeep", "SiteHist (simulation, 5 calls)", emit=False, simulate=8 if ctx.quick else 150, depth=6,
+                 seed=ctx.seed)
     for k in range(0, len(hrecs), step):
         replay_hist(ctx, exe, hrecs[k:k + step])
     del hrecs
